@@ -7,13 +7,19 @@
 //!                  every command that has options, with and without the last keyword's value
 //!   gen_frames     generated frames from the same grammar with adversarial value pools,
 //!                  arity perturbation and one adversarial replacement
+//!   typed_matrix   exhaustive: frames whose elements are not all bulk strings (integer, simple
+//!                  string, error, nil bulk, nil array, nested array at every single position of
+//!                  every prefix; numeric texts as integer elements), nil-array / non-array frames
+//!   gen_typed      generated frames of the same grammar with an overlay of element types
 //! Lua half (direct execution on executor A vs `EVAL "return redis.call|pcall(table.unpack(ARGV))"`
 //! on twin executor B with the same state and clock):
 //!   lua_coverage   exhaustive over command names: which names the redis.call translator knows
 //!   lua_twins      generated (state, invocation, call|pcall): replies equal under the
-//!                  documented RESP -> Lua -> RESP conversion, keyspace dumps equal
+//!                  documented RESP -> Lua -> RESP conversion, keyspace dumps equal; in part of
+//!                  the twins the script passes integer-valued arguments as Lua numbers
 
 mod grammar;
+use grammar::{El, Top};
 #[path = "../../c17/src/forms.rs"]
 #[allow(dead_code)]
 mod forms;
@@ -36,9 +42,34 @@ use vcore::{CaseCtx, Level, Session};
 // parser half
 // =======================================================================================
 
+/// The frame is `argv` as an array of bulk strings, except that the elements listed in
+/// `retype` have another RESP type and `top` may make the frame a nil array / a non-array.
 #[derive(Clone, Debug, Serialize, Deserialize)]
 struct FrameCase {
     argv: Argv,
+    #[serde(default, skip_serializing_if = "Vec::is_empty")]
+    retype: Vec<(usize, El)>,
+    #[serde(default, skip_serializing_if = "Top::is_array")]
+    top: Top,
+}
+
+impl FrameCase {
+    fn plain(argv: Argv) -> FrameCase {
+        FrameCase { argv, retype: Vec::new(), top: Top::Array }
+    }
+    fn typed((argv, retype, top): (Argv, Vec<(usize, El)>, Top)) -> FrameCase {
+        FrameCase { argv, retype, top }
+    }
+    fn is_plain(&self) -> bool {
+        self.retype.is_empty() && self.top.is_array()
+    }
+    fn show(&self) -> String {
+        if self.is_plain() {
+            show_argv(&self.argv)
+        } else {
+            grammar::show_frame(&grammar::elements(&self.argv, &self.retype), self.top)
+        }
+    }
 }
 
 #[derive(Clone, Debug, PartialEq)]
@@ -48,11 +79,23 @@ enum Out {
     Panicked(String),
 }
 
-fn run_parser(which: &str, argv: &Argv) -> Out {
-    let r = if which == "sim" {
-        catch(|| parse_sim(argv).map(|c| format!("{:?}", c)))
+fn run_parser(which: &str, c: &FrameCase) -> Out {
+    let argv = &c.argv;
+    let r = if c.is_plain() {
+        if which == "sim" {
+            catch(|| parse_sim(argv).map(|c| format!("{:?}", c)))
+        } else {
+            catch(|| parse_zc(argv).map(|c| format!("{:?}", c)))
+        }
     } else {
-        catch(|| parse_zc(argv).map(|c| format!("{:?}", c)))
+        let els = grammar::elements(argv, &c.retype);
+        if which == "sim" {
+            let f = grammar::frame_sim(&els, c.top);
+            catch(|| Command::from_resp(&f).map(|c| format!("{:?}", c)))
+        } else {
+            let f = grammar::frame_zc(&els, c.top);
+            catch(|| Command::from_resp_zero_copy(&f).map(|c| format!("{:?}", c)))
+        }
     };
     match r {
         Ok(Ok(c)) => Out::Parsed(c),
@@ -122,20 +165,64 @@ fn looks_numeric(a: &[u8]) -> bool {
 
 fn check_frame(c: &FrameCase, ctx: &mut CaseCtx<'_>) -> Result<(), String> {
     let argv = &c.argv;
-    let sim = run_parser("sim", argv);
-    let zc = run_parser("zc", argv);
+    let sim = run_parser("sim", c);
+    let zc = run_parser("zc", c);
+    let plain = c.is_plain();
+    let parsed = matches!((&sim, &zc), (Out::Parsed(_), _) | (_, Out::Parsed(_)));
     match (&sim, &zc) {
         (Out::Parsed(_), _) | (_, Out::Parsed(_)) => {
             ctx.label("parsed");
-            if argv.iter().skip(1).any(|a| looks_numeric(a) || grammar::is_option_keyword(a)) {
+            if plain && argv.iter().skip(1).any(|a| looks_numeric(a) || grammar::is_option_keyword(a)) {
                 ctx.nontrivial(argv);
             }
         }
         (Out::Rejected(_), Out::Rejected(_)) => ctx.label("rejected"),
         _ => ctx.label("panicked"),
     }
+    if !plain {
+        // typed frame: which element types it carries, and whether the parsers take it
+        let mut kinds: Vec<&'static str> = c.retype.iter().filter(|(p, _)| *p < argv.len()).map(|(_, e)| e.kind()).collect();
+        kinds.sort();
+        kinds.dedup();
+        for k in &kinds {
+            ctx.label(&format!("el:{}", k));
+        }
+        if c.retype.iter().any(|(p, e)| *p == 0 && !matches!(e, El::Bulk(_))) {
+            ctx.label("el:name_not_bulk");
+        }
+        match c.top {
+            Top::Array => {}
+            Top::NilArray => ctx.label("top:nil_array"),
+            Top::Bare => ctx.label("top:not_an_array"),
+        }
+        let ints = c.retype.iter().filter(|(p, e)| *p < argv.len() && matches!(e, El::Int(_))).count();
+        if ints > 1 {
+            ctx.label("el:int_several");
+        }
+        if ints > 0 && c.top.is_array() {
+            ctx.label(if parsed { "el:int_frame_parsed" } else { "el:int_frame_rejected" });
+            // non-trivial: a frame with an integer element that at least one parser accepts
+            if parsed {
+                ctx.nontrivial(&(argv, &c.retype));
+            }
+        }
+    }
     if sim == zc && !matches!(sim, Out::Panicked(_)) {
         return Ok(());
+    }
+    if !plain {
+        // none of the listed parser findings concerns typed frames: nothing is tolerated here
+        return Err(match (&sim, &zc) {
+            (Out::Panicked(a), Out::Panicked(z)) => {
+                format!("both parsers panic on the frame {}: from_resp: {}; from_resp_zero_copy: {}", c.show(), a, z)
+            }
+            _ => format!(
+                "the parsers disagree on the frame {} (<:n> integer, <+s> simple string, <-s> error, <$-1> nil bulk, <*-1> nil array, <*n[..]> nested array element):\n  from_resp           -> {:?}\n  from_resp_zero_copy -> {:?}",
+                c.show(),
+                sim,
+                zc
+            ),
+        });
     }
     if is_push_arity_text(argv, &sim, &zc) && ctx.tolerate("KF-C16-01") {
         return Ok(());
@@ -200,10 +287,42 @@ struct TwinCase {
     steps: Vec<Step>,
     argv: Argv,
     pcall: bool,
+    /// argv positions (>= 1) the script passes as Lua numbers instead of strings
+    /// (`redis.call('INCRBY', 'k', 5)`); only positions whose text is the canonical decimal of
+    /// an integer of magnitude <= 2^53, so that number -> string is the identity in every Lua
+    #[serde(default, skip_serializing_if = "Vec::is_empty")]
+    numbers: Vec<usize>,
+    /// pass those numbers as Lua floats (`5.0`) rather than Lua integers
+    #[serde(default, skip_serializing_if = "std::ops::Not::not")]
+    float: bool,
 }
 
 const CALL: &str = "return redis.call(table.unpack(ARGV))";
 const PCALL: &str = "return redis.pcall(table.unpack(ARGV))";
+
+/// text that is the canonical decimal of an integer every Lua number type holds exactly
+fn small_canonical_int(a: &[u8]) -> bool {
+    match grammar::as_i64(a) {
+        Some(n) => n.unsigned_abs() <= (1u64 << 53) && n.to_string().as_bytes() == a,
+        None => false,
+    }
+}
+
+/// the script of a twin: all arguments arrive as strings in ARGV; the chosen positions are
+/// turned into Lua numbers before the call
+fn twin_script(c: &TwinCase) -> String {
+    let numbers: Vec<usize> =
+        c.numbers.iter().copied().filter(|p| *p >= 1 && *p < c.argv.len() && small_canonical_int(&c.argv[*p])).collect();
+    if numbers.is_empty() {
+        return (if c.pcall { PCALL } else { CALL }).to_string();
+    }
+    let mut s = String::from("local a = {table.unpack(ARGV)} ");
+    for p in numbers {
+        s.push_str(&format!("a[{}] = tonumber(a[{}]){} ", p + 1, p + 1, if c.float { " + 0.0" } else { "" }));
+    }
+    s.push_str(if c.pcall { "return redis.pcall(table.unpack(a))" } else { "return redis.call(table.unpack(a))" });
+    s
+}
 
 /// The documented conversion RESP -> Lua -> RESP of a non-error reply: status <-> {ok=},
 /// integer <-> number, bulk <-> string, nil bulk / nil array -> false -> nil, array <-> table
@@ -300,7 +419,9 @@ fn check_twin(c: &TwinCase, ctx: &mut CaseCtx<'_>) -> Result<(), String> {
 
     // ---- through the script, executor B
     let mut bw = World::build(&c.steps);
-    let mut ev: Argv = vec![b("EVAL"), b(if c.pcall { PCALL } else { CALL }), b("0")];
+    let script = twin_script(c);
+    let with_numbers = script.starts_with("local");
+    let mut ev: Argv = vec![b("EVAL"), b(&script), b("0")];
     ev.extend(argv.iter().cloned());
     let lua = match catch(|| bw.exec(&ev)) {
         Ok(r) => r,
@@ -310,15 +431,19 @@ fn check_twin(c: &TwinCase, ctx: &mut CaseCtx<'_>) -> Result<(), String> {
 
     let how = if c.pcall { "redis.pcall" } else { "redis.call" };
     ctx.label(how);
+    if with_numbers {
+        ctx.label(if c.float { "lua_number_args:float" } else { "lua_number_args:integer" });
+    }
     let describe = |d: &Direct| match d {
         Direct::ParseErr(e) => format!("rejected by the parser: {:?}", e),
         Direct::Reply(r) => r.show(),
     };
     let mismatch = |why: &str, direct: &Direct| -> String {
         format!(
-            "{} {}: {}\n  direct        -> {}\n  {} -> {}\n  keyspace after direct:\n{}  keyspace after script:\n{}",
+            "{} {}{}: {}\n  direct        -> {}\n  {} -> {}\n  keyspace after direct:\n{}  keyspace after script:\n{}",
             how,
             show_argv(argv),
+            if with_numbers { format!(" [script: {}]", script) } else { String::new() },
             why,
             describe(direct),
             how,
@@ -523,6 +648,8 @@ fn twin(steps: &[&[&str]], argv: &[&str], pcall: bool) -> TwinCase {
         steps: steps.iter().map(|s| Step::Cmd(av(s))).collect(),
         argv: av(argv),
         pcall,
+        numbers: Vec::new(),
+        float: false,
     }
 }
 
@@ -535,7 +662,10 @@ fn main() {
          (integers at/beyond i64/u64/isize limits, floats incl. nan/inf/1e400, non-UTF-8, empty), option keywords in any order and repetition with / without values, repeating groups, \
          arity perturbation 0..max+2, one adversarial replacement; plus two exhaustive enumerations (arity matrix, option orders up to length 3). \
          non-trivial = parses in at least one parser and carries >= 1 option keyword or numeric argument; distinct by argv. \
-         Lua half: C17's state generator, then one invocation (vcore data command / failure-biased form / grammar frame) executed directly and through EVAL redis.call|pcall on a twin executor; \
+         typed frames (typed_matrix, gen_typed): the same argv with elements of other RESP types (integer, simple string, error, nil bulk, nil array, nested / empty array) at single positions or at every numeric text, \
+         and frames that are a nil array or not an array; non-trivial = carries an integer element and parses in at least one parser; distinct by (argv, retyped elements). \
+         Lua half: C17's state generator, then one invocation (vcore data command / failure-biased form / grammar frame) executed directly and through EVAL redis.call|pcall on a twin executor \
+         (all arguments as Lua strings; in ~1/6 of the twins the integer-valued ones, |n| <= 2^53 in canonical decimal, as Lua integers or floats); \
          non-trivial = the command mutates the keyspace or returns a non-empty array, a bulk or a non-zero integer; distinct by (name, call|pcall, outcome kind, mutated, argc)",
         &args,
     );
@@ -543,11 +673,12 @@ fn main() {
     s.assume("for redis.call only 'is an error and contains the direct error text' is required (Redis versions differ in decoration); for redis.pcall the text must be equal");
     s.assume("commands Redis 7 flags noscript (AUTH EVAL EVALSHA SCRIPT FUNCTION MULTI EXEC DISCARD WATCH UNWATCH CLIENT WAIT CONFIG ACL DEBUG) may be refused from scripts with '… not allowed from script' provided the keyspace is unchanged");
     s.assume("SMEMBERS / HGETALL replies are compared as multisets (two executor instances iterate their hash tables in different orders)");
+    s.assume("a Lua number argument that is an integer of magnitude <= 2^53 reaches the command as its canonical decimal text (Redis converts number arguments of redis.call to strings), whether the Lua value is an integer or a float");
     s.assume("Debug rendering of Command is injective enough: two different Commands do not render the same");
 
     // ---------------------------------------------------------------- probes
     let frame_probe = |argv: &[&str]| {
-        let c = FrameCase { argv: av(argv) };
+        let c = FrameCase::plain(av(argv));
         s.strict_eval(|ctx| check_frame(&c, ctx)).err()
     };
     s.probe("KF-C16-01", json!({"argv": ["LPUSH", "k"], "also": [["RPUSH", "k"], ["SADD", "k"], ["LPUSH"]]}), || {
@@ -598,13 +729,21 @@ fn main() {
 
     // ---------------------------------------------------------------- parser half
     s.describe_check("arity_matrix", "every prefix (arity 0..max+2) of name + fixed + each option once + two repeating groups + two extra arguments, for every command/subcommand of the table in three letter cases; EVAL/EVALSHA x 14 numkeys values x 0..4 arguments");
-    s.run_enumerated("arity_matrix", grammar::arity_matrix().into_iter().map(|argv| FrameCase { argv }), check_frame);
+    s.run_enumerated("arity_matrix", grammar::arity_matrix().into_iter().map(FrameCase::plain), check_frame);
     s.describe_check("option_orders", "every sequence with repetition of <= 3 option keywords of every command with options, canonical values, with and without the last keyword's value");
-    s.run_enumerated("option_orders", grammar::option_orders().into_iter().map(|argv| FrameCase { argv }), check_frame);
+    s.run_enumerated("option_orders", grammar::option_orders().into_iter().map(FrameCase::plain), check_frame);
     s.run_cases(
         "gen_frames",
         s.scale(3_000_000, 30_000_000),
-        || grammar::frame(None).prop_map(|argv| FrameCase { argv }),
+        || grammar::frame(None).prop_map(FrameCase::plain),
+        check_frame,
+    );
+    s.describe_check("typed_matrix", "frames whose elements are not all bulk strings: every prefix of every command's long canonical form x every single position (name included) x {integer, simple string, error, nil bulk, nil array, nested array, empty array}; all numeric texts as integer elements at once; every option-order frame with each / all numeric option values as integer elements; every integer position x integer pool at the i64/u32 limits; frames that are a nil array or not an array");
+    s.run_enumerated("typed_matrix", grammar::typed_matrix().into_iter().map(FrameCase::typed), check_frame);
+    s.run_cases(
+        "gen_typed",
+        s.scale(500_000, 10_000_000),
+        || grammar::typed_frame().prop_map(FrameCase::typed),
         check_frame,
     );
 
@@ -619,6 +758,8 @@ fn main() {
             steps: vec![],
             argv: av(&[n, "k0", "1", "1"]),
             pcall: true,
+            numbers: Vec::new(),
+            float: false,
         }),
         |c, ctx| {
             let name = cmd_name(&c.argv);
@@ -663,7 +804,22 @@ fn main() {
                 1 => grammar::frame(None),
                 1 => forms::mutated(&o),
             ];
-            (state_steps(5, 6), invocation, any::<bool>()).prop_map(|(steps, argv, pcall)| TwinCase { steps, argv, pcall })
+            // 1 twin in 2 (those that have such arguments: about a third): the script passes (a subset of) the integer-valued arguments as Lua
+            // numbers (integers or floats) instead of strings
+            (state_steps(5, 6), invocation, any::<bool>(), (0u8..2, any::<u8>(), any::<bool>())).prop_map(
+                |(steps, argv, pcall, (gate, mask, float))| {
+                    let mut numbers = Vec::new();
+                    if gate == 0 {
+                        let cand: Vec<usize> = (1..argv.len()).filter(|p| small_canonical_int(&argv[*p])).collect();
+                        numbers = cand.iter().enumerate().filter(|(i, _)| mask == 0 || mask & (1 << (i % 8)) != 0).map(|(_, p)| *p).collect();
+                        if numbers.is_empty() {
+                            numbers = cand;
+                        }
+                    }
+                    let float = float && !numbers.is_empty();
+                    TwinCase { steps, argv, pcall, numbers, float }
+                },
+            )
         },
         check_twin,
     );
